@@ -288,3 +288,17 @@ package mhprimary
 //@ func (mp *MultihashPrimary) StartGC(freeList *freelist.FreeList, interval time.Duration, timeLimit time.Duration, updateIndex UpdateIndexFunc)
 //@   trusted starts the collector goroutine (newGC); its body is verified separately (primaryGC.run)
 //@   modifies mp.gc
+
+// chunkOldPrimary (C10, C07): the legacy primary is split so that every record of a chunk starts
+// below the file-size limit - the rule Put/flushBlock and the position decoding use - and
+// every output file starts empty (created truncated), so an interrupted conversion can be rerun.
+//@ func chunkOldPrimary(ctx context.Context, name string, fileSizeLimit int64) (lastFileNum uint32, err error)  property C10 C07
+//@   requires fileSizeLimit > 0 && fileSizeLimit <= (1 << 40)
+//@   modifies ctx.$done, heap("bufio.")
+// input invariant: a primary record is smaller than 2^30 bytes (the code's own assumption)
+//@   assume at after call (encoding/binary.littleEndian).Uint32#0: @format-primary-record-size $r0 % 2147483648 < 1073741824
+//@   assert at after call mhprimary.createFileAppend#0: @output-starts-empty $r1 == nil ==> $r0.$size == 0 && $r0.$name == fname(name, fileNum)
+//@   assert at after call mhprimary.createFileAppend#1: @output-starts-empty $r1 == nil ==> $r0.$size == 0 && $r0.$name == fname(name, fileNum)
+//@   assert at before call (*bufio.Writer).Write#0: @record-starts-below-limit 0 <= written && written < fileSizeLimit
+//@   assert at before call (*os.File).ReadAt#0: @read-at-cursor $a2 == pos && len($a1) == 4
+//@   loop 0 invariant 0 <= written && written < fileSizeLimit && 0 <= pos && pos <= file.$size + 2147483648 && file.$size < (1 << 62) && file != nil && fresh(file) && outFile != nil && fresh(outFile) && writer != nil && len(sizeBuf) == 4 && fresh(sizeBuf) && (baseof(scratch) == 0 || fresh(scratch))
